@@ -608,6 +608,20 @@ class Universe:
         raise EngineError(f"cannot lower type {ty}")
 
 
+def has_custom_eq(cls) -> bool:
+    """A hand-written __eq__ (the dataclass-generated one is compiled from a string): structural equality of the
+    datatype is then NOT what `==` means for this class."""
+    for c in cls.__mro__:
+        eq = c.__dict__.get("__eq__")
+        if eq is None:
+            continue
+        if c is object:
+            return False
+        code = getattr(eq, "__code__", None)
+        return code is not None and code.co_filename != "<string>"
+    return False
+
+
 def make_instance(cls, fields: dict, run_post_init=True):
     """Build a real instance without type checks; __post_init__ is run natively only if concrete."""
     obj = object.__new__(cls)
